@@ -423,6 +423,23 @@ func c05M5(l *core.Ledger, r *rt) {
 
 func c05M6(l *core.Ledger, r *rt, eps []*entryPoint) {
 	n := 0
+	// every channel registered with a node is allocated by this invocation:
+	// a channel taken from shared storage (a pool, a field) can still be
+	// referenced by the router of an earlier, abandoned call
+	for _, ep := range eps {
+		for i, e := range ep.enqueues {
+			os := sx.Origins(e.Call.Args[2])
+			fresh := sx.All(os, func(o sx.Origin) bool {
+				if o.Kind == sx.KMake {
+					mc, ok := o.V.(*ssa.MakeChan)
+					return ok && mc.Parent() == ep.fn
+				}
+				return sx.IsZeroOrNil(o)
+			})
+			l.Check(fresh, "C05-M6", fmt.Sprintf("%s/enqueue%d/fresh-channel", ep.key, i), e.Pos(), "reply channel allocated by this invocation (or nil)",
+				"the reply channel registered for this call is not allocated by this invocation ("+sx.OriginsString(os)+"): a router left behind by an earlier call that returned early still points at it, so that call's late reply is delivered to this call")
+		}
+	}
 	for _, ep := range eps {
 		var chans []*ssa.MakeChan
 		sx.AllInstrs(ep.fn, func(_ sx.Node, in ssa.Instruction) {
